@@ -1,6 +1,6 @@
 (** C01 — evaluation never corrupts memory; errors stay contained: property theorems only. *)
 From ChibiV Require Import Common.Words C01.Model C01.Proofs C01.TableProofs C01.Prims C01.PrimProofs
-  C01.StackProofs C01.ConstProofs Gen.C01_VmGuards Gen.C01_Stack Gen.C01_Consts.
+  C01.StackProofs C01.ConstProofs C01.Spec C01.SpecProofs Gen.C01_VmGuards Gen.C01_Stack Gen.C01_Consts.
 Local Open Scope Z_scope.
 
 (** ** part 1: opcode guards *)
@@ -24,6 +24,19 @@ Print Assumptions vm_table_size.
 Theorem vm_ops_accesses_safe : forall e, In e vm_table -> forall st, trace_ok st (snd e).
 Proof. exact vm_ops_accesses_safe_proof. Qed.
 Print Assumptions vm_ops_accesses_safe.
+
+(** the regenerated guards implement the hand-written SPEC of the 17 opcode-backed primitives:
+    whenever no guard raises, the SPEC does not demand an error ... *)
+Theorem guards_refine_spec : forall p a1 a2 a3 a4,
+  passes (prim_code p) a1 a2 a3 a4 -> spec p (prim_args p a1 a2 a3) <> MustError.
+Proof. exact guards_refine_spec_proof. Qed.
+Print Assumptions guards_refine_spec.
+
+(** ... and the guards are not stricter than the domain in which the SPEC demands a value *)
+Theorem guards_complete_spec : forall p a1 a2 a3 a4,
+  spec p (prim_args p a1 a2 a3) = MustValue -> passes (prim_code p) a1 a2 a3 a4.
+Proof. exact guards_complete_spec_proof. Qed.
+Print Assumptions guards_complete_spec.
 
 (** ** part 2: foreign primitives — error, or every region inside its buffer, for all arguments *)
 
@@ -54,6 +67,20 @@ Print Assumptions index_scan_fuel_suffices.
 Theorem prim_regions_in_bounds_make_bytes : forall len, regions_ok (prim_make_bytes len).
 Proof. exact prim_make_bytes_safe. Qed.
 Print Assumptions prim_regions_in_bounds_make_bytes.
+
+(** string-cursor-ref reads the continuation bytes its lead byte announces: in bounds when every
+    lead byte of the string has its continuation bytes inside the string ... *)
+Theorem string_ref_continuation_in_bounds : forall p i,
+  leads_complete p -> 0 <= i < Z.of_nat (length p) -> in_bounds (prim_utf8_ref p i).
+Proof. exact prim_utf8_ref_safe. Qed.
+Print Assumptions string_ref_continuation_in_bounds.
+
+(** ... and NOT in general: sexp_string_utf8_ref trusts the lead byte (witness "a\xf0", cursor 1:
+    two bytes past the terminator).  Candidate F-C01-2, recorded, not repaired. *)
+Theorem string_ref_trusts_lead_byte_refuted :
+  exists p i, 0 <= i < Z.of_nat (length p) /\ ~ in_bounds (prim_utf8_ref p i).
+Proof. exact prim_utf8_ref_trusts_lead_byte_refuted. Qed.
+Print Assumptions string_ref_trusts_lead_byte_refuted.
 
 (** generated obligation: with the constants of the headers the vector allocation size cannot wrap *)
 Theorem vector_size_no_wrap : max_vector_length * word_bytes + vector_header_bytes < B.
